@@ -44,6 +44,9 @@ def run_demo(demo_dir):
 
 
 def main():
+    import fcntl
+    lock = open("/tmp/repo.lock", "w")
+    fcntl.flock(lock, fcntl.LOCK_EX)  # /repo's working tree is shared with tools/applyfix.py
     src, name = sys.argv[1], sys.argv[2]
     props = None
     for i, a in enumerate(sys.argv):
